@@ -106,6 +106,8 @@ def opsItv (op : String) (ins outs : List String) : Option String :=
   | "is_subset" => binEq (fun x y => showBool (Itv.subset x y)) ins outs
   | "is_strict_subset" => binEq (fun x y => showBool (Itv.strictSubset x y)) ins outs
   | "is_interior_subset" => binEq (fun x y => showBool (Itv.interiorSubset x y)) ins outs
+  | "is_strict_interior_subset" => binEq (fun x y => showBool (Itv.strictInteriorSubset x y)) ins outs
+  | "is_relative_interior_subset" => binEq (fun x y => showBool (Itv.relInteriorSubset x y)) ins outs
   | "intersects" => binEq (fun x y => showBool (Itv.intersects x y)) ins outs
   | "overlaps" => binEq (fun x y => showBool (Itv.overlaps x y)) ins outs
   | "is_disjoint" => binEq (fun x y => showBool (Itv.isDisjoint x y)) ins outs
